@@ -2,7 +2,7 @@
 From Coq Require Import List ZArith NArith Bool Lia.
 From Coq.Strings Require Import Byte.
 Import ListNotations.
-From SV Require Import Text G_gff C02_Model.
+From SV Require Import Text G_gff C02_Model C02_Lemmas C02_Order C02_Line C02_Score C02_Dict C02_Feat C02_Read C02_Lenient C02_Cycle.
 
 Lemma skipn_length_app {A} (pre t : list A) : skipn (length pre) (pre ++ t) = t.
 Proof. induction pre as [|a pre IH]; [reflexivity|exact IH]. Qed.
@@ -46,7 +46,56 @@ Theorem two_tables_offset_xsv sep ft names names' a b :
   read_xsv sep ft (stream_rest (PSeek (length (write_xsv sep names' a))) (write_xsv sep names' a ++ write_xsv sep names b)) = read_xsv sep ft (write_xsv sep names b).
 Proof. rewrite rest_seek. reflexivity. Qed.
 
+(* ------------------------------------------------------------------ the same stream read from its start: the joined list *)
+Definition ltext (ls : list str) : str := concat (map (fun t => t ++ nl) ls).
+Lemma good_tss x : Forall good x ->
+  exists tss, Forall2 (fun f ts => write_feat f = Some (ltext ts) /\ Forall (fun t => has x0a t = false) ts) x tss.
+Proof.
+  induction 1 as [|f x G _ [tss IH]]; [exists []; constructor|].
+  destruct (good_lines f G) as [l0 [rest [texts [_ [Wf Fl]]]]]. exists (texts :: tss). constructor; [|exact IH]. split; [exact Wf|].
+  clear -Fl. induction Fl as [|t gl ts gls [_ [_ [S _]]] _ IH']; constructor; assumption.
+Qed.
+Lemma write_gff_lines x tss :
+  Forall2 (fun f ts => write_feat f = Some (ltext ts) /\ Forall (fun t => has x0a t = false) ts) x tss ->
+  write_gff x = Some (ltext (header_line :: concat tss)) /\ Forall (fun t => has x0a t = false) (header_line :: concat tss).
+Proof.
+  intros F. destruct (concat_opt_feats x tss F) as [C N]. unfold write_gff. rewrite C. cbn [option_map]. split; [|constructor; [reflexivity|exact N]].
+  rewrite header_eq. reflexivity.
+Qed.
+Lemma filter_skip_header A B :
+  filter (fun l => negb (skippable l)) (header_line :: A ++ header_line :: B) = filter (fun l => negb (skippable l)) (header_line :: A ++ B).
+Proof.
+  change (header_line :: A ++ header_line :: B) with ((header_line :: A) ++ [header_line] ++ B).
+  change (header_line :: A ++ B) with ((header_line :: A) ++ B). rewrite !filter_app. reflexivity.
+Qed.
+(* two tables written one after the other into one stream, read from the start of the stream: the table of the joined list
+   (the version line of the second table is a comment to the reader) *)
+Theorem two_tables_joined a b ta tb : Forall good a -> Forall good b -> write_gff a = Some ta -> write_gff b = Some tb ->
+  exists tab, write_gff (a ++ b) = Some tab /\ read_gff (stream_rest (PSeek 0) (ta ++ tb)) = read_gff tab.
+Proof.
+  intros Ga Gb Wa Wb. destruct (good_tss a Ga) as [tsa Fa]. destruct (good_tss b Gb) as [tsb Fb].
+  destruct (write_gff_lines a tsa Fa) as [Ea Na]. destruct (write_gff_lines b tsb Fb) as [Eb Nb].
+  destruct (write_gff_lines (a ++ b) (tsa ++ tsb) (Forall2_app Fa Fb)) as [Eab Nab].
+  rewrite Ea in Wa. rewrite Eb in Wb. inversion Wa; inversion Wb; subst ta tb. clear Wa Wb.
+  eexists. split; [exact Eab|]. cbn [stream_rest skipn]. unfold read_gff. f_equal.
+  unfold ltext. rewrite <- concat_app, <- map_app.
+  rewrite !file_lines_concat by (try apply Forall_app; auto).
+  rewrite concat_app. cbn [app].
+  rewrite <- (read_ignores_comments (header_line :: concat tsa ++ header_line :: concat tsb)).
+  rewrite <- (read_ignores_comments (header_line :: concat tsa ++ concat tsb)).
+  rewrite filter_skip_header. reflexivity.
+Qed.
+
 Definition ex_title : list str := [bs "exported by some tool; the table starts in the next line"%bs; bs "start,stop,len"%bs].
 Lemma ex_title_ok : Forall (fun l => has x0a l = false) ex_title /\
   stream_rest (PLines 2) (concat (map (fun l => l ++ nl) ex_title) ++ bs "##gff-version 3"%bs) = bs "##gff-version 3"%bs.
 Proof. split; [repeat constructor|reflexivity]. Qed.
+Lemma ex_two_tables_ok : Forall good [ex_cds] /\ Forall good [ex_cds; ex_cds] /\
+  match write_gff [ex_cds], write_gff [ex_cds; ex_cds] with
+  | Some t, Some t2 => match read_gff (t ++ t), read_gff t2 with Some r, Some r' => Nat.eqb (length r) (length r') && negb (Nat.eqb (length r) 0) | _, _ => false end
+  | _, _ => false
+  end = true.
+Proof.
+  assert (good ex_cds) as G by (split; [vm_compute; reflexivity|split; vm_compute; reflexivity]).
+  split; [repeat constructor; exact G|]. split; [repeat constructor; exact G|]. vm_compute. reflexivity.
+Qed.
